@@ -26,7 +26,11 @@ void h_sjp_pubkeys(void) {
     INPUT(size_t, n_tags); INPUT(secp256k1_generator, outtag); INPUT(size_t, input_index); INPUT(size_t, ring0); INPUT(_Bool, use_ring); INPUT(size_t, gi);
     struct bm { unsigned char b[32]; }; INPUT(struct bm, used);
     secp256k1_generator *tags; secp256k1_gej *pubkeys; size_t ring = ring0, n_pub, t, idx = 0; int ret, found = 0;
+#ifdef PK_MAXT
+    __CPROVER_assume(n_tags <= PK_MAXT);       /* bounded stand-in (loop unwound) */
+#else
     __CPROVER_assume(n_tags <= 256);
+#endif
     __CPROVER_assume(n_tags % 8 == 0 || (used.b[(n_tags + 7) / 8 - 1] >> (n_tags % 8)) == 0);
     verif_sj_rank[0] = 0;
     for (t = 0; t < 256; t++) verif_sj_rank[t + 1] = verif_sj_rank[t] + ((t < n_tags) ? ((used.b[t / 8] >> (t % 8)) & 1) : 0);
@@ -56,7 +60,7 @@ void h_sjp_pubkeys(void) {
     if (gi < n_pub) {
         __CPROVER_assert(found && g_aj_seen, "C11 compute_public_keys: (harness) ring position gi exists");
         __CPROVER_assert(g_aj_roff == gi * sizeof(secp256k1_gej), "C11 compute_public_keys: key number j is stored at ring position j");
-#ifndef VERIF_NATIVE
+#if !defined(VERIF_NATIVE) && defined(PK_OPERANDS)
         {   secp256k1_ge tg, og; secp256k1_generator_load(&tg, &tags[idx]); secp256k1_generator_load(&og, &outtag);
             __CPROVER_assert(GEJ_EQ(g_aj_a, verif_sj_ea) && GE_EQ(g_aj_b, verif_sj_eb), "C11 compute_public_keys: key j is computed from the operands the specification demands");
             __CPROVER_assert(!verif_sj_ea.infinity && fval(&verif_sj_ea.z) == 1 && modp(fval(&verif_sj_ea.x)) == modp(fval(&tg.x)) && modp(fval(&verif_sj_ea.y) + fval(&tg.y)) == 0, "C11 compute_public_keys: first operand of key j is the negated j-th selected input tag");
@@ -64,10 +68,16 @@ void h_sjp_pubkeys(void) {
         }
 #endif
     }
+#ifdef PK_MAXT
+    if (n_pub == PK_MAXT && gi == PK_MAXT - 1) REACH("pubkeys all inputs of the bounded stand-in selected");
+#else
     if (n_pub == 256 && gi == 255) REACH("pubkeys all 256 inputs selected");
+#endif
     if (n_pub == 0) REACH("pubkeys none selected");
 #ifdef PK_RING
     if (use_ring && ring != ring0) REACH("pubkeys ring index written");
 #endif
+#ifndef PK_MAXT
     if (n_tags == 200 && gi == 3 && idx == 150) REACH("pubkeys sparse selection");
+#endif
 }
